@@ -1,7 +1,9 @@
 ---------------------------------- MODULE Stereo ----------------------------------
 (* Configuration in a representation that uses no table of the code:
    tetrahedral: parity (0/1) of the mark w.r.t. the neighbours listed by ascending position, hydrogen last (2 = no mark);
-   double bond: same-side relation <<a, b, x, y, cis>> of substituent x (on a) and y (on b). *)
+   double bond: same-side relation <<a, b, x, y, cis>> of substituent x (on a) and y (on b);
+   cumulene (allene, butatriene, ...): the same record for the two chain ends a, b: the sign of the axis for the substituent pair (x, y).
+   Both obey one algebra: naming the other substituent of an end inverts the relation, exchanging the ends does not. *)
 EXTENDS Graphs
 
 \* number of inversions of the sequence q
